@@ -44,6 +44,7 @@ type imgSpec struct {
 	Refs  int    `json:"refs"`  // 1: OCI referrers (subject) point at the image / the index and its first child
 	Data  int    `json:"data"`  // 1: descriptors of config, first layer (and index children) carry inline data
 	Ext   int    `json:"ext"`   // 1: the first layer is a foreign layer with external urls (blob present at the source)
+	Alg   string `json:"alg"`   // digest algorithm of every digest of the source: "" = sha256 | sha512
 }
 
 type blobT struct {
@@ -55,6 +56,7 @@ type blobT struct {
 
 // built is the concrete image with everything it needs.
 type built struct {
+	Alg   string            // digest algorithm
 	Order []string          // digests, children first
 	Objs  map[string]*blobT // digest -> object
 	Root  string
@@ -75,7 +77,7 @@ func digOf(alg string, b []byte) string {
 }
 
 func (b *built) add(raw []byte, isMan bool, mt string) string {
-	d := digOf("sha256", raw)
+	d := digOf(b.Alg, raw)
 	if _, ok := b.Objs[d]; !ok {
 		b.Objs[d] = &blobT{Dig: d, Raw: raw, IsMa: isMan, MT: mt}
 		b.Order = append(b.Order, d)
@@ -228,7 +230,7 @@ func (b *built) oneImage(sp imgSpec, tag string, n int, hist, arch string, annot
 			ld["data"] = raw // []byte marshals as base64
 		}
 		layers = append(layers, ld)
-		diffs = append(diffs, digOf("sha256", tarb))
+		diffs = append(diffs, digOf(b.Alg, tarb))
 	}
 	history := []any{}
 	li, ei := 0, 0
@@ -313,8 +315,16 @@ func (b *built) attestation(forDig string) string {
 
 var archs = []string{"amd64", "arm64"}
 
+func newBuilt(sp imgSpec) *built {
+	alg := sp.Alg
+	if alg == "" {
+		alg = "sha256"
+	}
+	return &built{Alg: alg, Objs: map[string]*blobT{}, Refs: map[string][]map[string]any{}}
+}
+
 func buildImage(sp imgSpec) *built {
-	b := &built{Objs: map[string]*blobT{}, Refs: map[string][]map[string]any{}}
+	b := newBuilt(sp)
 	if sp.Shape == "image" {
 		b.Root = b.oneImage(sp, "l", sp.N, sp.Hist, "amd64", map[string]string{"keep.anno": "v"})
 		if sp.Refs == 1 {
@@ -363,8 +373,8 @@ func buildImage(sp imgSpec) *built {
 // buildBases returns the old base (layer 1 of the image and the history prefix up to it) and the
 // new base (two layers N1 N2 with one empty entry between them) for the rebase option.
 func buildBases(sp imgSpec) (old, nw *built) {
-	old = &built{Objs: map[string]*blobT{}, Refs: map[string][]map[string]any{}}
-	nw = &built{Objs: map[string]*blobT{}, Refs: map[string][]map[string]any{}}
+	old = newBuilt(sp)
+	nw = newBuilt(sp)
 	prefix := ""
 	for _, ch := range sp.Hist {
 		prefix += string(ch)
